@@ -10,7 +10,8 @@
 import glob, json, os, re, shutil, subprocess, sys, time
 
 ROOT = os.path.dirname(os.path.dirname(os.path.abspath(__file__)))
-SEEDED = os.path.join(ROOT, "seeded")
+SEEDED = os.environ.get("SEEDED_DIR", os.path.join(ROOT, "seeded"))
+REPO = os.environ.get("SEEDED_REPO", "/repo")
 ALL = ["C%02d" % i for i in range(1, 21)]
 
 
@@ -56,7 +57,7 @@ def confirm(wt, prop):
     for d in diffs:
         n = re.match(r"m(\d+)", os.path.basename(d)).group(1)
         mine = [p for p in demos if re.search(r"m%s[_.]" % n, os.path.basename(p)) or re.search(r"_m%s_" % n, os.path.basename(p))]
-        rec = {"id": "%s-m%s" % (prop, n), "prop": prop, "diff": d, "demos": mine, "ok": False, "why": ""}
+        rec = {"id": "%s%s-m%s" % (prop, os.environ.get("SEEDED_SUFFIX", ""), n), "prop": prop, "diff": d, "demos": mine, "ok": False, "why": ""}
         results.append(rec)
         if not mine:
             rec["why"] = "no demonstration file found for this mutant among %s" % demos
@@ -119,11 +120,11 @@ def evaluate(ids, checks=None):
     for mid in ids:
         dst = os.path.join(SEEDED, mid)
         meta = json.load(open(os.path.join(dst, "meta.json")))
-        rc, out = sh(["git", "-C", "/repo", "status", "--porcelain", "--untracked-files=no"])
+        rc, out = sh(["git", "-C", REPO, "status", "--porcelain", "--untracked-files=no"])
         if out.strip():
-            print("refusing: /repo has local modifications:\n" + out)
+            print("refusing: repo has local modifications:\n" + out)
             return table
-        rc, out = sh(["git", "-C", "/repo", "apply", os.path.join(dst, "patch.diff")])
+        rc, out = sh(["git", "-C", REPO, "apply", os.path.join(dst, "patch.diff")])
         if rc != 0:
             print(mid, "does not apply to /repo:", out[-300:])
             continue
@@ -137,7 +138,7 @@ def evaluate(ids, checks=None):
                           "tool_error": [l[:300] for l in out.splitlines() if l.startswith("TOOL-ERROR")][:1]}
                 print("  %s %s exit=%d %s" % (mid, c, rc, viol[0][:160] if viol else ""), flush=True)
         finally:
-            sh(["git", "-C", "/repo", "checkout", "--", "."])
+            sh(["git", "-C", REPO, "checkout", "--", "."])
         meta["checks"] = res
         meta["detected_by"] = sorted(c for c, r in res.items() if r["exit"] == 1)
         meta["owner_detects"] = meta["breaks_property"] in meta["detected_by"]
@@ -147,7 +148,31 @@ def evaluate(ids, checks=None):
     return table
 
 
+def table():
+    """Markdown table of seeded/*/meta.json for DESIGN.md 0.6."""
+    rows = []
+    for mid in sorted(os.listdir(SEEDED)):
+        mp = os.path.join(SEEDED, mid, "meta.json")
+        if not os.path.exists(mp):
+            continue
+        m = json.load(open(mp))
+        ch = m.get("checks", {})
+        own = m["breaks_property"]
+        first = ch.get(own, {}).get("first", "")
+        sig = re.search(r"sig=(\S+)", first)
+        others = [c for c in m.get("detected_by", []) if c != own]
+        ran = sorted(ch)
+        rows.append("| %s | %s | %s | %s | %s | %s |" % (mid, own, "yes" if m.get("owner_detects") else "**no**", sig.group(1).replace("|", "\\|") if sig else "", " ".join(others) or "-",
+                                                    "all" if len(ran) == 20 else " ".join(ran)))
+    print("| change | breaks | owner check reports it | first signature reported by the owner check | other checks reporting a violation | checks run |")
+    print("|---|---|---|---|---|---|")
+    print("\n".join(rows))
+
+
 if __name__ == "__main__":
+    if sys.argv[1] == "table":
+        table()
+        sys.exit(0)
     if sys.argv[1] == "confirm":
         for r in confirm(sys.argv[2], sys.argv[3]):
             print(r["id"], "CONFIRMED" if r["ok"] else "REJECTED: " + r["why"])
